@@ -15,7 +15,7 @@ BLANKS = [" ", "\t", "\n", "\r", "  ", " \n"]
 
 NAMES = ["a", "b", "c", "x", "k", "ys", "xs", "", "é", "😀", "a'b", 'a"b', "a\\", "\\", "\u0001", " ", "a b", "and", "true",
          "null", "/", "~", "a/b", "1", "-1", "01", "*", "$", "@", "..", "[", "'", '"', "\n", "_x", "x-y", "in", "\u007f", "\x1f",
-         '\\"', 'x\\"y', "\\'", '"\\', "'\\\"", "\\\\", "a😀b", "é😀", "x\U0001d11ey", "_😀"]
+         '\\"', 'x\\"y', "\\'", '"\\', "'\\\"", "\\\\", "a😀b", "é😀", "x\U0001d11ey", "_😀", "a\x7fb", "\x80", "x\x9f", "\x85", "\xa0", "\u2028", "\ufeffa"]
 SIMPLE_NAMES = ["a", "b", "c", "x", "k", "ys", "xs"]
 
 
